@@ -27,6 +27,7 @@ import (
 	"github.com/mgtv-tech/redis-GunYu/pkg/rdb"
 	"github.com/mgtv-tech/redis-GunYu/pkg/redis/client"
 	"github.com/mgtv-tech/redis-GunYu/pkg/redis/client/conn"
+	"github.com/mgtv-tech/redis-GunYu/pkg/util"
 	"github.com/mgtv-tech/redis-GunYu/pkg/vfc20"
 	"github.com/mgtv-tech/redis-GunYu/pkg/vfdoubles"
 	"github.com/mgtv-tech/redis-GunYu/pkg/vfutil"
@@ -52,6 +53,14 @@ func vfC20Output(c *vfc20.Case, tg *vfdoubles.Target, parallel int) *RedisOutput
 		ReplayRdbEnableRestore:     c.Restore,
 		ReplayRdbParallel:          parallel,
 		Stats:                      config.OutputStats{DisableLog: true},
+	}
+	cfg.Filter.DbBlacklist = c.FDB
+	if len(c.FPre) > 0 {
+		kf := &config.FilterKeyConfig{}
+		for _, p := range c.FPre {
+			kf.PrefixKeyBlacklist = append(kf.PrefixKeyBlacklist, string(vfutil.UnHex(p)))
+		}
+		cfg.Filter.KeyFilter = kf
 	}
 	cfg.Redis.Type = config.RedisTypeStandalone
 	cfg.Redis.Otype = config.RedisTypeStandalone
@@ -142,10 +151,13 @@ func vfC20Run(t *testing.T, c *vfc20.Case) *vfc20.Run {
 	return res
 }
 
+// vfC20ParserLeft: failed SendRdb runs that left the parser goroutine blocked (observation, see vfC20RunSend)
+var vfC20ParserLeft int
+
 // vfC20RunSend: the REAL SendRdb (parser → distributor → c.Parallel workers)
 // on the snapshot bytes, plain or bidirectional.
-func vfC20RunSend(t *testing.T, c *vfc20.Case) *vfc20.Run {
-	res := c.Prepare()
+func vfC20RunSend(t *testing.T, c *vfc20.Case) (res *vfc20.Run) {
+	res = c.Prepare()
 	if res.LoadErr != nil {
 		return res
 	}
@@ -154,6 +166,21 @@ func vfC20RunSend(t *testing.T, c *vfc20.Case) *vfc20.Run {
 		old := rdb.VerifSetMaxBinEntryBuffer(c.Thr)
 		defer rdb.VerifSetMaxBinEntryBuffer(old)
 	}
+	if c.PipeSize > 0 {
+		oldPipe := config.RdbPipeSize
+		config.RdbPipeSize = c.PipeSize
+		defer func() { config.RdbPipeSize = oldPipe }()
+	}
+	// a FAILED SendRdb leaves the snapshot parser's goroutine blocked on its full pipe for ever (rdb.ParseRdb has no
+	// context; visible only with a small RdbPipeSize): the bubble then cannot end cleanly. The results were taken before.
+	defer func() {
+		if p := recover(); p != nil {
+			if !strings.Contains(fmt.Sprint(p), "blocked goroutines remain") || res.Final == "ok" || res.Final == "" {
+				panic(p)
+			}
+			vfC20ParserLeft++
+		}
+	}()
 	synctest.Test(t, func(t *testing.T) {
 		vfc20.SettleClock()
 		tg := vfdoubles.NewTarget()
@@ -164,6 +191,11 @@ func vfC20RunSend(t *testing.T, c *vfc20.Case) *vfc20.Run {
 		}
 		res.Snapshot(tg, c, res.Before)
 		nSeed := tg.LogLen()
+		if c.Slow > 0 {
+			// a slow target: the workers wait for every reply, their pipes stay full while the distributor sends
+			slow := time.Duration(c.Slow) * time.Millisecond
+			tg.Hook = func(idx int, e vfdoubles.LogEntry) { time.Sleep(slow) }
+		}
 		cc := *c
 		if c.Mode == "sendbisync" {
 			cc.Mode = "bisync"
@@ -209,6 +241,7 @@ func vfC20RunSend(t *testing.T, c *vfc20.Case) *vfc20.Run {
 func TestVerifC20Syncer(t *testing.T) {
 	s := vfutil.NewSession("C20S")
 	defer s.Close()
+	defer func() { s.Add("observed_parser_goroutine_left_blocked_after_failed_sendrdb", vfC20ParserLeft) }()
 	idx := 0
 	run := func(c *vfc20.Case, src string) {
 		r := vfC20Run(t, c)
@@ -228,7 +261,28 @@ func TestVerifC20Syncer(t *testing.T) {
 		}
 		vfc20.Emit(s, idx, c, r)
 		idx++
-		vfc20.Check(s, c, r)
+		vfc20.Monitors(s, c, r)
+		vfc20.Stats(s, c, r, src)
+	}
+	// the REAL SendRdb with c.Parallel workers: order-free monitors, the routing partition against the model
+	send := func(c *vfc20.Case, src string) {
+		r := vfC20RunSend(t, c)
+		if r.LoadErr != nil {
+			s.Violate("generator-rdb-rejected", r.LoadErr.Error(), c.Replay())
+			return
+		}
+		if !c.Collides() {
+			vfc20.CheckParallel(s, c, r)
+		}
+		vfc20.CheckCells(s, c, r)
+		if vfc20.EmitRoute(s, idx, c, r) {
+			idx++
+			s.Count("route_partition_compared")
+		}
+		if c.Collides() && vfc20.EmitPin(s, idx, c, r) {
+			idx++
+			s.Count("collide_pin_compared")
+		}
 		vfc20.Stats(s, c, r, src)
 	}
 	if p := os.Getenv("VERIF_REPLAY"); p != "" {
@@ -242,11 +296,7 @@ func TestVerifC20Syncer(t *testing.T) {
 				var c vfc20.Case
 				if json.Unmarshal([]byte(rp.Replay.Case), &c) == nil && (c.Mode == "send" || c.Mode == "sendbisync") {
 					for rep := 0; rep < 50; rep++ {
-						r := vfC20RunSend(t, &c)
-						if r.LoadErr == nil {
-							vfc20.CheckParallel(s, &c, r)
-							vfc20.Stats(s, &c, r, "replay")
-						}
+						send(&c, "replay")
 					}
 				} else if json.Unmarshal([]byte(rp.Replay.Case), &c) == nil && c.Mode != "plain" && c.Mode != "" {
 					run(&c, "replay")
@@ -260,11 +310,7 @@ func TestVerifC20Syncer(t *testing.T) {
 			if err := json.Unmarshal([]byte(l[strings.Index(l, " ")+1:]), &c); err != nil {
 				t.Fatalf("corpus line: %v", err)
 			}
-			r := vfC20RunSend(t, &c)
-			if r.LoadErr == nil {
-				vfc20.CheckParallel(s, &c, r)
-				vfc20.Stats(s, &c, r, "corpus")
-			}
+			send(&c, "corpus")
 			continue
 		}
 		for _, mode := range []string{"wplain", "bisync"} {
@@ -306,6 +352,55 @@ func TestVerifC20Syncer(t *testing.T) {
 		for _, c := range vfc20.ExhaustiveRerun(mode) {
 			run(c, "exhaustive-rerun")
 		}
+		// two snapshot keys on ONE target cell (TargetDb, non-injective TargetDbMap, replaceHashTag, a key twice); output filters
+		for _, c := range vfc20.ExhaustiveCollide(mode) {
+			run(c, "exhaustive-collide")
+		}
+		for _, c := range vfc20.ExhaustiveFilter(mode) {
+			run(c, "exhaustive-filter")
+		}
+	}
+	// … and the same through the real SendRdb with 3 workers: the colliding keys hash to different workers by their
+	// SOURCE names ("{a}b0" / "ab0"), to one worker by the key they are replayed to
+	for _, mode := range []string{"send", "sendbisync"} {
+		for _, c := range vfc20.ExhaustiveCollide(mode) {
+			c.Parallel = 3
+			for rep := 0; rep < vfutil.Scale(2, 6); rep++ {
+				cc := *c
+				if rep > 0 {
+					n := len(vfc20.BuildRDB(cc.KVList(), vfc20.Opts{Aux: true}))
+					cc.Gate = 30 + (rep*37)%(n-40)
+				}
+				send(&cc, "exhaustive-collide-send")
+			}
+		}
+		for i, c := range vfc20.ExhaustiveFilter(mode) {
+			c.Parallel = 2 + i%2
+			send(c, "exhaustive-filter-send")
+		}
+	}
+	// back-pressure: pipes of 1-2 entries per worker, a slow target
+	for _, mode := range []string{"send", "sendbisync"} {
+		for _, c := range vfc20.BackPressure(mode) {
+			send(c, "send-backpressure")
+		}
+	}
+	// util.FnvHash (the distributor's hash) against the model's fnv32a
+	{
+		rf := vfutil.NewRand(vfutil.Seed() + 4242)
+		keys := [][]byte{nil, []byte("{a}b0"), []byte("ab0"), []byte("k")}
+		for i := 0; i < vfutil.Scale(300, 3000); i++ {
+			keys = append(keys, rf.Bytes(rf.Range(0, 40)))
+		}
+		for _, k := range keys {
+			hk := vfutil.Hex(k)
+			if len(k) == 0 {
+				hk = "-"
+			}
+			s.Op("c20fnv "+hk, fmt.Sprintf("%d", util.FnvHash(k)))
+			idx++
+		}
+		s.Count("fnv_compared")
 	}
 	// a client write between the EXISTS probe and the unit's EXEC (bidirectional, RESTORE path)
 	for _, pol := range []string{"replace", "ignore", "error"} {
@@ -379,13 +474,14 @@ func TestVerifC20Syncer(t *testing.T) {
 				}
 			}
 		}
-		r := vfC20RunSend(t, c)
-		if r.LoadErr != nil {
-			s.Violate("generator-rdb-rejected", r.LoadErr.Error(), c.Replay())
-			continue
+		if i%5 == 1 {
+			c = vfc20.GenCollide(rs.Fork(), c.Mode)
+			c.Parallel = 2 + i%3
+			if i%2 == 0 {
+				c.Gate = 30 + rs.Intn(60)
+			}
 		}
-		vfc20.CheckParallel(s, c, r)
-		vfc20.Stats(s, c, r, "send-parallel")
+		send(c, "send-parallel")
 	}
 	r := vfutil.NewRand(vfutil.Seed() + 77)
 	n := vfutil.Scale(1200, 20000)
@@ -393,6 +489,10 @@ func TestVerifC20Syncer(t *testing.T) {
 		mode := "bisync"
 		if i%3 == 0 {
 			mode = "wplain"
+		}
+		if i%6 == 5 {
+			run(vfc20.GenCollide(r.Fork(), mode), "random-collide")
+			continue
 		}
 		run(vfc20.GenCase(r.Fork(), mode, 2), "random")
 	}
